@@ -253,6 +253,9 @@ def error_laws(ctx, rng, N):
         ctx.check_array("unit_gain_is_error_rotation_vector", name, np.abs(w1 - e_true).max(axis=1), 1e-9 * np.maximum(1, 1 / np.maximum(np.sin(th), 2e-2)), inp)
         if name == "attitude_control":  # documented as element-wise gain on the error vector
             ctx.check_array("gain_scales_error", name, np.abs(w - kp * e_true).max(axis=1), 1e-8 * np.maximum(1, 1 / np.maximum(np.sin(th), 2e-2)), inp)
+        else:  # log-linear law: gains act on the error vector, mapped by the *left* Jacobian of so(3) at the error
+            law = np.einsum("nij,nj->ni", O.so3_left_jac(e_true), kp * e_true)
+            ctx.check_array("gain_scales_error_through_left_jacobian", name, np.abs(w - law).max(axis=1), 1e-8 * np.maximum(1, 1 / np.maximum(np.sin(th), 2e-2)), inp)
     ctx.distinct(np.concatenate([q, qr], axis=1), ~same)
     # SE_2(3): error + attitude law
     fe = lib_call(ctx, "derive", "se23_error", lambda: ll.derive_se23_error()["se23_error"], not_implemented_ok=False)
@@ -269,6 +272,8 @@ def error_laws(ctx, rng, N):
         sm = same[:M]
         ctx.check_array("zero_at_same_rotation", "se23_attitude_control", np.where(np.isfinite(u).all(axis=1), np.abs(u).max(axis=1), np.inf)[sm], 1e-9, {k_: v_[sm] for k_, v_ in inp.items()})
         ctx.check_array("error_rotation_part_is_rotation_vector", "se23_error", np.abs(z[:, 6:] - e_true[:M]).max(axis=1), 1e-9 * np.maximum(1, 1 / np.maximum(np.sin(th[:M]), 2e-2)), inp)
+        law = np.einsum("nij,nj->ni", O.so3_left_jac(e_true[:M]), kp[:M] * e_true[:M])
+        ctx.check_array("gain_scales_error_through_left_jacobian", "se23_attitude_control", np.abs(u - law).max(axis=1), 1e-8 * np.maximum(1, 1 / np.maximum(np.sin(th[:M]), 2e-2)), inp)
         (z1, u1), _ = ev(p, v, q[:M], pr_, vr, qr[:M], ones[:M])
         u1 = u1[:, :, 0]
         reach = np.abs(O.quat_to_R(q[:M]) @ O.rodrigues(u1) - O.quat_to_R(qr[:M])).max(axis=(1, 2))
